@@ -204,6 +204,9 @@ fn worker<C: Cell>(cell: Arc<C>, baton: Arc<Baton>, tid: usize) {
     let cskip = cell.clone();
     vs::install(Box::new(move |kind, site, val| {
         if kind != vs::KIND_NOTE && cskip.skip_site(site) { return; }
+        // a run that is being aborted unwinds the workers out of the pool; destructors that run during that unwinding
+        // (guards collected by a bulk request) come back here: they must neither park nor panic a second time
+        if kind != vs::KIND_NOTE && std::thread::panicking() { return; }
         if kind == vs::KIND_NOTE {
             let mut g = b2.m.lock().unwrap_or_else(|e| e.into_inner());
             g.log.push((tid, site, val));
@@ -973,7 +976,8 @@ fn run_lf_v(cx: &mut Ctx, size: usize, slots: usize, v: &Value, progs: &[Vec<Op>
             if count != 0 || packed & 0xFFFF_FFFF != 0 { f.push((None, format!("the 8192-byte bin changed (head {}, count {}) although only large blocks were requested", packed & 0xFFFF_FFFF, count))); }
             if let Some(st) = c2.pool.stats() {
                 let (sd, mu) = (st.skip_deallocs.load(Ordering::SeqCst), st.memory_usage.load(Ordering::SeqCst));
-                if sd != o.frees { f.push((None, format!("skip_deallocs = {} after {} frees of large blocks", sd, o.frees))); }
+                // (a bulk request that failed part-way gave back what it had taken: at most bulk_slack more)
+                if sd < o.frees || sd - o.frees > o.bulk_slack { f.push((None, format!("skip_deallocs = {} after {} frees of large blocks", sd, o.frees))); }
                 if mu != carved.len() as u64 * bs as u64 { f.push((None, format!("memory_usage = {} but {} blocks of {} bytes were carved", mu, carved.len(), bs))); }
             }
             return f;
